@@ -437,7 +437,9 @@ def render_dependencies(content: TContent, type: RenderType = "document") -> TCo
     is_safestring = isinstance(content, SafeString)
 
     if isinstance(content, str):
-        content_ = content.encode()
+        # NOTE: `surrogatepass` so that a string with lone surrogates (which plain UTF-8 cannot encode)
+        #       makes the round trip through bytes unchanged, instead of raising UnicodeEncodeError.
+        content_ = content.encode("utf-8", errors="surrogatepass")
     else:
         content_ = cast(bytes, content)
 
@@ -492,7 +494,7 @@ def render_dependencies(content: TContent, type: RenderType = "document") -> TCo
         content_ += js_dependencies
 
     # Return the same type as we were given
-    output = content_.decode() if isinstance(content, str) else content_
+    output = content_.decode("utf-8", errors="surrogatepass") if isinstance(content, str) else content_
     output = mark_safe(output) if is_safestring else output
     return cast(TContent, output)
 
